@@ -11,6 +11,8 @@ C18.d  shifts whose amount is constant or locally bounded stay below the promote
 C18.e  [type] the byte storage behind every bit container has ceil(N/8) bytes for every N <= 255.
 C18.f  [summary] the task pool's slot indices stay inside its array (shares C10.a/c).
 C18.g  [bitprov] every bit-container operation addresses only storage the container owns (shares C20.e).
+C18.i  [type] every per-task side array of the plan data has an element for every index the task pool can hand out; the pool has the
+       configured capacity (witness capacities 1, 2, 8, 254 on three states).
 C18.h  [summary] the state ids the library itself feeds into single-index bit operations -- the wrappers' own compile-time ids, the
        invalid id of the root head included -- are below the capacity of the array they index.
 Not decided: absence of out-of-bounds accesses for all histories (subscripts without a local guard rest on data-structure
@@ -215,9 +217,18 @@ def run(run):
     for v_ in facts.variants(run.tier):
         F_ = facts.load('w_core', 'P', v_)
         run.guard('task list summaries', _c10.task_list_summaries, run, F_, _eff.Effects(F_))
+        run.guard('link rules', _c10.link_rules, run, F_, _eff.Effects(F_))
+        facts.drop(F_)
+        # ... and the arrays indexed with those slot indices have an element for each (every plan-carrying witness machine, among them
+        # capacities above and below the state count)
+        F_ = facts.load('w_limit', 'P', v_)
+        run.guard('capacity extents', _c10.capacity_extents, run, F_, 'C18.i')
+        run.guard('link rules', _c10.link_rules, run, F_, _eff.Effects(F_))
         facts.drop(F_)
     run.relabel('C10.a', 'C18.f')
+    run.relabel('C10.b', 'C18.f')
     run.relabel('C10.c', 'C18.f')
+    run.floor('C18.i', 8)
     run.floor('C18.f', 4)
     # the bit containers: every operation, for every capacity 1..255 and every in-range index, addresses only storage the array owns
     # (the refinement rule of C20.e; a violation there is an out-of-bounds access)
